@@ -15,6 +15,7 @@ CFG = """SPECIFICATION Spec
 CONSTANTS Rows <- RowsV
  Cases <- CasesV
  Classes = {%s}
+ Deep = %s
 INVARIANT EncodeStepwise
 INVARIANT DecodeStepwise
 INVARIANT Base58Invertible
@@ -210,7 +211,7 @@ def verdict_of(tbl, res):
 def run(ctx):
     tbl = table()
     k_random = 1 if ctx.quick else 4
-    classes = ['zero', 'ones', 'mid'] if ctx.quick else ['zero', 'ones', 'zero-ff', 'ones-00', 'low', 'high', 'mid']
+    classes = ['zero', 'ones'] if ctx.quick else ['zero', 'ones', 'zero-ff', 'ones-00', 'low', 'high', 'mid']
     ctx.rule = ('kind table read from the running code (%d rows); Leg A: TLC encodes, per row, the payload/checksum classes %s and every concrete case digit by digit and '
                 'checks the end points, the shape of every encoding, invertibility and that the (length, human prefix) decoder accepts exactly the encodings; '
                 'Leg B: per row payloads {zeros, ones, %d seeded random} are encoded and 11 corruption classes of a valid text are decoded by the model, the checksum '
@@ -224,7 +225,7 @@ def run(ctx):
     rows_v = to_tla(tuple((tuple(hp), elen, tuple(bp), plen) for hp, elen, bp, plen, _ in tbl))
     cases_v = '<<' + ',\n  '.join(to_tla(c[0]) for c in cases) + '>>'
     gen = {'Base58MC': MC % (rows_v, cases_v)}
-    r = ctx.tlc('Base58MC', CFG % ', '.join('"%s"' % c for c in classes), gen=gen, timeout=1500)
+    r = ctx.tlc('Base58MC', CFG % (', '.join('"%s"' % c for c in classes), 'FALSE' if ctx.quick else 'TRUE'), gen=gen, timeout=1500)
     ctx.require_no_violation(r, 'Base58')
     ctx.require_coverage(r, ['EncLookup', 'EncDiv', 'EncToDec', 'DecStart', 'DecLookup', 'DecMul', 'DecCheck'])
     outs = [v for v in r.printed if v[0] == 'OUT']
